@@ -150,6 +150,11 @@ class World:
         if kind == "arg":
             return DataSymbol(name, INTEGER_TYPE, interface=ArgumentInterface())
         if kind == "imp":
+            # (in a replayed -simulate history the real tables may have
+            # diverged from the model: the id may denote another object)
+            if not isinstance(self.sym.get(dep), ContainerSymbol):
+                raise Unsupported("import source %s is not a ContainerSymbol "
+                                  "in the real tables" % dep)
             return DataSymbol(name, INTEGER_TYPE,
                               interface=ImportInterface(self.sym[dep]))
         if kind == "unres":
